@@ -316,6 +316,15 @@ theorem foldl_moveSwaps (k : Nat) (pre : List BV) (x : BV) (sfx : List BV) (cg :
         apply List.drop_of_length_le; simp; omega
       simp [h1, h2]
 
+theorem moveSwaps_nil {k m : Nat} (h : moveSwaps k m = []) : m ≤ k := by
+  cases m with
+  | zero => exact Nat.zero_le _
+  | succ m =>
+    simp only [moveSwaps] at h
+    split at h
+    · cases h
+    · omega
+
 theorem fits_moveSwaps (k m : Nat) (w : Nat) (hw : m + 1 ≤ w) : fits w (moveSwaps k m) = some w := by
   induction m with
   | zero => simp [moveSwaps, fits]
@@ -352,7 +361,7 @@ theorem PP.addWire_run {pp pp' : PP} {k : Nat} (hwf : pp.WF) (h : pp.addWire k =
     (ws : List BV) (x : BV) (hws : ws.length = pp.dom) :
     pp'.run (ws ++ [x]) = ((pp.run ws).1, insertAt (pp.run ws).2 k [x]) ∧ pp'.WF ∧
       pp'.dom = pp.dom + 1 ∧ pp'.cod = pp.cod + 1 ∧ (pp.run ws).2.length = pp.cod ∧ k ≤ pp.cod ∧
-      (pp'.layers = [] → pp.layers = []) := by
+      (pp'.layers = [] → pp.layers = [] ∧ pp.cod ≤ k) := by
   unfold PP.addWire at h
   split at h
   · cases h
@@ -361,7 +370,7 @@ theorem PP.addWire_run {pp pp' : PP} {k : Nat} (hwf : pp.WF) (h : pp.addWire k =
     have hfit : fits (([] : List CG), ws).2.length pp.layers = some pp.cod := by
       unfold PP.WF at hwf; simpa [hws] using hwf
     obtain ⟨hrun, hlen⟩ := foldl_stepRun_suffix pp.layers ([], ws) [x] pp.cod hfit
-    refine ⟨?_, ?_, rfl, rfl, hlen, by omega, fun hl => (List.append_eq_nil_iff.mp hl).1⟩
+    refine ⟨?_, ?_, rfl, rfl, hlen, by omega, fun hl => ⟨(List.append_eq_nil_iff.mp hl).1, moveSwaps_nil (List.append_eq_nil_iff.mp hl).2⟩⟩
     · simp only [PP.run, List.foldl_append]
       rw [hrun]
       have hk' : k ≤ (List.foldl PP.stepRun ([], ws) pp.layers).2.length := by rw [hlen]; omega
